@@ -172,6 +172,14 @@ func gridE(tier string) []tcpx.Spec {
 				}
 			}
 		}
+		// writes that fail part-way (small socket buffers, a peer that goes away without reading)
+		for _, buf := range []int{700, 5000} {
+			for _, cl := range []string{"client-abort", "target-abort"} {
+				for _, real := range []bool{false, true} {
+					out = append(out, tcpx.Spec{TCPBuf: buf, RealMetrics: real, Conns: []tcpx.ConnSpec{{Class: cl, Cipher: c}, {Class: "ok", Cipher: c, Up: 20, Down: 30}}})
+				}
+			}
+		}
 		// sequences: ok then replays, and mixed triples
 		out = append(out, tcpx.Spec{Cache: 10, RealMetrics: true, Conns: []tcpx.ConnSpec{{Class: "ok", Cipher: c, Up: 10, Down: 100}, {Class: "replay-client", Cipher: c, Up: 10, Down: 100}}})
 		if c < 3 {
